@@ -73,7 +73,7 @@ def mkword(ps):
 
 W2 = [mkword(ps) for ps in itertools.product("IXYZ", repeat=2)]          # index 0 = identity
 W3 = [mkword(ps) for ps in ("III", "IIZ", "XIX", "YZI", "IYY", "XZY", "ZZZ", "YXX", "ZXZ", "XYZ")]
-W2Q = [W2[i] for i in (0, 1, 3, 4, 6, 9, 11, 15)]                           # I, Y1?, ... 8-word sub-alphabet (quick, k=3)
+W2Q = [W2[i] for i in (0, 1, 3, 4, 6, 9, 11, 15)]     # II, IX, IZ, XI, XY, YX, YZ, ZZ: 8-word sub-alphabet
 W3Q = [W3[i] for i in (0, 2, 5, 6, 7)]
 PW3 = [mkword(ps) for ps in itertools.product("IXYZ", repeat=3)][1:]       # 63 non-identity words
 
@@ -600,7 +600,7 @@ def plan(tier):
     allc = ["none", "int", "one", "two", "two_rev", "q0", "q0+"]
     return {
         "pw": {"words": 63, "coefs": 7, "controls": allc, "variational": "True for all; False additionally for none/one"},
-        "b1": {"words": "W2(16)+W3(10)", "coefs": "all 3", "times": "3 scalars + 3 one-entry dicts", "orders": [1, 2, 4] if q else [1, 2, 4, 6],
+        "b1": {"words": "W2(16)+W3(10)", "coefs": "all 3", "times": "3 scalars + integer 1 + 3 one-entry dicts", "orders": [1, 2, 4] if q else [1, 2, 4, 6],
                "steps": [1, 2, 3], "controls": allc, "calls": "trotterize(steps) + gexp + gexp(pauli_order)"},
         "b2": {"words": "all ordered pairs of W2 (240) and W3 (90)", "coefs": "cyclic 3 pairs" if q else "all 9 pairs",
                "times": "3 scalars + 3 cyclic dicts", "orders": [1, 2], "steps": [1, 2, 3],
@@ -763,7 +763,7 @@ def expand(sec, skel, tier, a):
     # b1 / b2 / b2hi / b3
     if sec == "b1":
         coefsets = [[c] for c in C]
-        times = list(T) + [[t] for t in T]
+        times = list(T) + [1] + [[t] for t in T]          # 1 = integer time
         perms = [None, [0]]
     elif sec == "b2":
         coefsets = [cyc(C, 2, j) for j in range(3)] if q else [list(cs) for cs in itertools.product(C, repeat=2)]
